@@ -11,6 +11,7 @@ package app
 
 import (
 	nodestate "github.com/yandex/mysync/internal/app/node_state"
+	"github.com/yandex/mysync/internal/app/optimization"
 	"github.com/yandex/mysync/internal/dcs"
 	"github.com/yandex/mysync/internal/mysql"
 	"github.com/yandex/mysync/internal/verifnd"
@@ -105,11 +106,16 @@ func verifC20World() *verifC20 {
 		w.dcs.seed(pathActiveNodes, []string{})
 	}
 	// optimisation registry naming an unknown / a known host
-	switch anom("opt-registry", 3) {
+	// (a well-formed record: "{}" = waiting to be optimised, or status "enabled")
+	switch anom("opt-registry", 5) {
 	case 1:
-		w.dcs.seed("optimization_nodes/ghost", struct{}{})
+		w.dcs.seed("optimization_nodes/ghost", optimization.DCSState{})
 	case 2:
-		w.dcs.seed("optimization_nodes/h3", struct{}{})
+		w.dcs.seed("optimization_nodes/ghost", optimization.DCSState{Status: optimization.StatusEnabled})
+	case 3:
+		w.dcs.seed("optimization_nodes/h3", optimization.DCSState{})
+	case 4:
+		w.dcs.seed("optimization_nodes/h3", optimization.DCSState{Status: optimization.StatusEnabled})
 	}
 	// recovery marks
 	switch anom("recovery", 3) {
